@@ -290,6 +290,12 @@ func CheckC02(c *ParseCase, st *Stats) *Violation {
 			st.Class("unclaimed:group-env-binding")
 			return nil
 		}
+		if c.Builtin && Verifies(c.D, c.AST, c.Argv, out.FlagBind, Quirks{GroupEnvAlone: true, KeepTainted: true}) {
+			// a command-line value equal to the declared content of one of the library's own containers: "written to" cannot
+			// be inferred from the content there, the SetByUser flags are consulted instead
+			st.Class("binding:read-through-flags")
+			return nil
+		}
 		return Violf("bound values %s are not those of any valid derivation; spec %q argv %q [%s]",
 			fmtBind(out.Bind), c.SpecStr, c.Argv, FmtDecls(c.D))
 	}
@@ -319,21 +325,21 @@ func CheckC15Parse(c *ParseCase, st *Stats) *Violation {
 	if out == nil || !out.Accept {
 		return nil
 	}
-	for key, vals := range out.Bind {
+	for key, vals := range out.FlagBind {
 		if len(vals) == 0 {
 			return Violf("SetByUser of %s is true although the command line supplied no value for it (it holds nothing); spec %q argv %q [%s]", key, c.SpecStr, c.Argv, FmtDecls(c.D))
 		}
 	}
-	if !Verifies(c.D, c.AST, c.Argv, out.Bind, Quirks{KeepTainted: true, GroupEnvAlone: true}) {
+	if !Verifies(c.D, c.AST, c.Argv, out.FlagBind, Quirks{KeepTainted: true, GroupEnvAlone: true}) {
 		// which values went where is C02's business; here only: did a container receive values without being flagged?
 		withUnflagged := map[string][]string{}
-		for k, v := range out.Bind {
+		for k, v := range out.FlagBind {
 			withUnflagged[k] = v
 		}
 		extra := ""
 		for i, o := range c.D.Opts {
 			key := c.D.OptKey(i)
-			if _, set := out.Bind[key]; set {
+			if _, set := out.FlagBind[key]; set {
 				continue
 			}
 			decl := []string(nil)
@@ -347,7 +353,7 @@ func CheckC15Parse(c *ParseCase, st *Stats) *Violation {
 		}
 		for i := range c.D.Args {
 			key := c.D.ArgKey(i)
-			if _, set := out.Bind[key]; !set && len(out.Raw[key]) > 0 {
+			if _, set := out.FlagBind[key]; !set && len(out.Raw[key]) > 0 {
 				withUnflagged[key] = out.Raw[key]
 				extra = key
 			}
